@@ -227,3 +227,43 @@ func (r *rlocker) Lock()   { (*RWMutex)(r).RLock() }
 func (r *rlocker) Unlock() { (*RWMutex)(r).RUnlock() }
 
 func (m *RWMutex) RLocker() Locker { return (*rlocker)(m) }
+
+// QuietMutex is Mutex without scheduling points: blocking is durable (a waiter parks on a channel, so a
+// synctest bubble sees it as blocked and core.Abort can release it) but acquiring it is not a decision point of
+// the cooperative scheduler. Used for the locks of vendored dependencies (go-statemachine's group lock), which
+// must not block on a real sync.Mutex inside a bubble when their holder is parked at a harness scheduling point.
+type QuietMutex struct {
+	mu      stdsync.Mutex
+	locked  bool
+	waiters []chan struct{}
+}
+
+func (m *QuietMutex) Lock() {
+	m.mu.Lock()
+	if !m.locked {
+		m.locked = true
+		m.mu.Unlock()
+		return
+	}
+	w := make(chan struct{})
+	m.waiters = append(m.waiters, w)
+	m.mu.Unlock()
+	core.Park(w)
+}
+
+func (m *QuietMutex) Unlock() {
+	m.mu.Lock()
+	if !m.locked {
+		m.mu.Unlock()
+		panic("ssync: unlock of unlocked mutex")
+	}
+	if len(m.waiters) > 0 {
+		w := m.waiters[0]
+		m.waiters = m.waiters[1:]
+		m.mu.Unlock()
+		close(w)
+		return
+	}
+	m.locked = false
+	m.mu.Unlock()
+}
